@@ -1,0 +1,13 @@
+//go:build verif
+
+package state
+
+// VerifMainTrieGet returns the raw value stored in the current (in-memory) main trie under the key,
+// e.g. the marshalled CodeEntry kept under a code hash.
+// Read-only accessor for the simulation checks in /verif; compiled only with -tags verif.
+func (adb *AccountsDB) VerifMainTrieGet(key []byte) ([]byte, error) {
+	adb.mutOp.Lock()
+	defer adb.mutOp.Unlock()
+
+	return adb.mainTrie.Get(key)
+}
